@@ -21,9 +21,13 @@ Inductive expr :=
 | EAnd (a b : expr) | EOr (a b : expr) | ENot (a : expr) | ENeg (a : expr)
 | ETern (c a b : expr) | ECoal (a b : expr)
 | EMapLit (kvs : list (expr * expr))
+| EArrLit (es : list expr)
 | EIndex (base idx : expr)
+| ESlice (base lo hi : expr)                        (* x[lo:hi]; an omitted bound is the empty string, as in the CST *)
 | ECall (f : bytes) (args : list expr)
-| EFun1 (f : fun1) (a : expr).
+| EFun1 (f : fun1) (a : expr)
+| EPosName (i : expr)                               (* $[[i]] *)
+| EPosVal (i : expr).                               (* $[[[i]]] *)
 
 Inductive lbase := LField (k : bytes) | LOos (k : bytes) | LLocal (x : bytes).
 
@@ -47,7 +51,10 @@ Inductive stmt :=
 | SEmitNamed (name : bytes) (e : expr) (keys : list bytes)  (* emit @name / emit name [, "k1", ...] *)
 | SFilter (e : expr)
 | SBare (e : expr)
-| SCall (name : bytes) (args : list expr).        (* call of a subroutine *)
+| SCall (name : bytes) (args : list expr)         (* call of a subroutine *)
+| SAssignPosName (i e : expr)                       (* $[[i]] = e : rename *)
+| SAssignPosVal (i e : expr)                        (* $[[[i]]] = e *)
+| SEmitF (items : list (bytes * expr)).             (* emitf @a, @b: one record with those names *)
 
 (* user-defined functions and subroutines (f_sub = true; separate name spaces, f_ret unused) *)
 Record fdef := { f_name : bytes; f_sub : bool; f_params : list (tyname * bytes); f_ret : tyname; f_body : list stmt }.
@@ -95,7 +102,9 @@ Inductive task :=
 | TIfArms (arms : list (expr * list stmt)) (els : option (list stmt))
 | TWhile (c : expr) (body : list stmt)
 | TDoTail (body : list stmt) (c : expr)
-| TIter (k : bytes) (v : option bytes) (entries : amap) (body : list stmt)
+| TIter (k : bytes) (v : option bytes) (entries : list (value * value)) (body : list stmt)
+    (* single-variable loops bind k to the first component (map key / array ELEMENT), key-value loops bind k to the key
+       (map key as a string / 1-up array index) and v to the value *)
 | TMulti (ks : list bytes) (v : bytes) (entries : amap) (body : list stmt)  (* executeOuter / executeInner *)
 | TForCLoop (c : option expr) (upd : list stmt) (body : list stmt)
 | TEmitNI (nvs : amap)
@@ -248,10 +257,34 @@ Definition eval_expr (e : expr) (st : state) : res (tres * state) :=
       do (va, st1) <- ev a st;
       match va with VAbsent => rec (TEval b) st1 | _ => rv va st1 end
   | EMapLit kvs => rec (TMapLit kvs []) st
+  | EArrLit es => do (vs, st1) <- evs es st; rv (VArr vs) st1          (* ArrayLiteralNode: absent elements are kept *)
   | EIndex b i =>
       do (vb, st1) <- ev b st; do (vi, st2) <- ev i st1; lift (index_read vb vi) st2
+  | ESlice b lo hi =>
+      do (vb, st1) <- ev b st; do (vl, st2) <- ev lo st1; do (vh, st3) <- ev hi st2; rv (slice_read vb vl vh) st3
   | ECall f args => eval_call f args st
   | EFun1 f a => do (va, st1) <- ev a st; rv (apply_fun1 f va) st1
+  | EPosName i =>
+      (* PositionalFieldNameNode.Evaluate (with the nil-record guard of fix 600e7ca15) *)
+      do (vi, st1) <- ev i st;
+      match vi with
+      | VAbsent => rv VAbsent st1
+      | VInt p => rv (match inrec st1 with
+                      | Some r => match pos_name r p with Some k => VStr k | None => VAbsent end
+                      | None => VAbsent
+                      end) st1
+      | _ => rv VError st1
+      end
+  | EPosVal i =>
+      do (vi, st1) <- ev i st;
+      match vi with
+      | VAbsent => rv VAbsent st1
+      | VInt p => rv (match inrec st1 with
+                      | Some r => match pos_value r p with Some v => v | None => VAbsent end
+                      | None => VAbsent
+                      end) st1
+      | _ => rv VError st1
+      end
   end.
 
 (* ---- assignments: lvalues.go *)
@@ -284,14 +317,18 @@ Definition assign_local_indexed (x : bytes) (vs : list value) (v : value) (st : 
   match stk st with
   | [] => Unsup
   | fs :: r =>
-      match fs_get x fs with
-      | Some (VMap cur) =>
-          of_pres (put_indexed_map cur vs v)
-            (fun m => match fs_poke x (VMap m) fs with
+      match (match fs_get x fs with Some c => if is_coll c then Some c else None | None => None end) with
+      | Some cur =>
+          (* a map stays a map and an array stays an array under PutIndexed: updated in place *)
+          match put_indexed cur vs v with
+          | VOk c' => match fs_poke x c' fs with
                       | Some fs' => ro ONormal (set_stk (fs' :: r) st)
                       | None => Unsup
-                      end) st
-      | _ =>
+                      end
+          | VErr => ro OErr st
+          | VUnsup => Unsup
+          end
+      | None =>
           (* not bound at all (new "any" slot in the current frame) or bound to a non-collection (gated assignment):
              both are what a_set does *)
           of_pres (fresh_indexed vs v)
@@ -336,11 +373,11 @@ Definition unset_lvalue (b : lbase) (vs : list value) (st : state) : state :=
       match stk st with
       | fs :: r =>
           match fs_get x fs with
-          | Some (VMap m) => match fs_poke x (VMap (remove_indexed_map m vs)) fs with
-                             | Some fs' => set_stk (fs' :: r) st
-                             | None => st
-                             end
-          | _ => st
+          | Some c => match fs_poke x (remove_indexed c vs) fs with
+                      | Some fs' => set_stk (fs' :: r) st
+                      | None => st
+                      end
+          | None => st
           end
       | [] => st
       end
@@ -350,9 +387,13 @@ Definition print_string (v : value) : option bytes :=
   match v with
   | VAbsent => Some []
   | VError => Some (B "(error)")
-  | VMap _ => None
+  | VMap _ | VArr _ => None
   | _ => scalar_string v
   end.
+
+Definition map_entries (m : amap) : list (value * value) := map (fun kv => (VStr (fst kv), snd kv)) m.
+Fixpoint arr_entries (i : Z) (a : list value) : list (value * value) :=
+  match a with [] => [] | e :: t => (VInt i, e) :: arr_entries (i + 1) t end.
 
 Definition first_is_map (m : amap) : bool :=
   match m with (_, VMap _) :: _ => true | _ => false end.
@@ -437,13 +478,15 @@ Definition exec_stmt (s : stmt) (st : state) : res (tres * state) :=
   | SFor1 k e body =>
       do (v, st1) <- ev e st;
       match v with
-      | VMap m => do (o, st2) <- ex (TIter k None m body) (push_frame st1); ro o (pop_frame st2)
+      | VMap m => do (o, st2) <- ex (TIter k None (map_entries m) body) (push_frame st1); ro o (pop_frame st2)
+      | VArr a => do (o, st2) <- ex (TIter k None (map (fun e => (e, e)) a) body) (push_frame st1); ro o (pop_frame st2)
       | _ => ro ONormal st1
       end
   | SFor2 k vn e body =>
       do (v, st1) <- ev e st;
       match v with
-      | VMap m => do (o, st2) <- ex (TIter k (Some vn) m body) (push_frame st1); ro o (pop_frame st2)
+      | VMap m => do (o, st2) <- ex (TIter k (Some vn) (map_entries m) body) (push_frame st1); ro o (pop_frame st2)
+      | VArr a => do (o, st2) <- ex (TIter k (Some vn) (arr_entries 1 a) body) (push_frame st1); ro o (pop_frame st2)
       | _ => ro ONormal st1
       end
   | SForMulti ks vn e body =>
@@ -454,6 +497,7 @@ Definition exec_stmt (s : stmt) (st : state) : res (tres * state) :=
       | VMap m =>
           do (o, st2) <- ex (TMulti ks vn m body) (push_frame st1);
           ro (match o with OBreak => ONormal | _ => o end) (pop_frame st2)
+      | VArr _ => Unsup                        (* multi-key loops over arrays: not modelled *)
       | _ => ro ONormal st1
       end
   | SForC init c upd body =>
@@ -504,6 +548,42 @@ Definition exec_stmt (s : stmt) (st : state) : res (tres * state) :=
   | SFilter e => do (v, st1) <- ev e st; ro ONormal (set_filt v st1)
   | SBare e => do (v, st1) <- ev e st; ro ONormal st1
   | SCall name args => exec_call name args st
+  | SAssignPosName i e =>
+      (* PositionalFieldNameLvalueNode.Assign: out-of-range position and unusable name are no-ops *)
+      do (v, st1) <- ev e st;
+      match v with
+      | VAbsent => ro ONormal st1
+      | _ =>
+          match inrec st1 with
+          | None => ro OErr st1
+          | Some _ =>
+              do (vi, st2) <- ev i st1;
+              match vi, inrec st2 with
+              | VInt p, Some r => ro ONormal (set_inrec (Some (pos_put_name r p v)) st2)
+              | _, _ => ro OErr st2
+              end
+          end
+      end
+  | SAssignPosVal i e =>
+      do (v, st1) <- ev e st;
+      match v with
+      | VAbsent => ro ONormal st1
+      | _ =>
+          match inrec st1 with
+          | None => ro OErr st1
+          | Some _ =>
+              do (vi, st2) <- ev i st1;
+              match vi, inrec st2 with
+              | VInt p, Some r => ro ONormal (set_inrec (Some (pos_put_value r p v)) st2)
+              | _, _ => ro OErr st2
+              end
+          end
+      end
+  | SEmitF items =>
+      (* EmitFStatementNode.Execute: one record, absent values skipped, PutCopy in order *)
+      do (vs, st1) <- evs (map snd items) st;
+      ro ONormal (emit_item (ORec (fold_left (fun r kv => match snd kv with VAbsent => r | v => mput (fst kv) v r end)
+                                             (combine (map fst items) vs) [])) st1)
   end.
 
 Definition cond_bool (v : value) : option bool := match v with VBool b => Some b | _ => None end.
@@ -574,7 +654,7 @@ Definition step (t : task) (st : state) : res (tres * state) :=
         end)
   | TIter k vn [] body => ro ONormal st
   | TIter k vn ((key, val) :: more) body =>
-      match a_set_at_scope k (VStr key) (stk st) with
+      match a_set_at_scope k key (stk st) with
       | None => ro OErr st
       | Some s1 =>
           match (match vn with Some vname => a_set_at_scope vname val s1 | None => Some s1 end) with
@@ -611,6 +691,7 @@ Definition step (t : task) (st : state) : res (tres * state) :=
                   | ONormal => rec (TMulti (k :: ks) vn more body) st1
                   | _ => ro o st1
                   end
+              | VArr _ => Unsup
               | _ => rec (TMulti (k :: ks) vn more body) (set_stk s1 st)
               end
           end
